@@ -430,7 +430,30 @@ class Exec(Interp):
         seq = self.as_sequence(st, itv, node)
         if spec is None:
             raise Unsupported("loop without invariant at line %s" % node.lineno)
+        if spec.unroll_max:
+            return self.unroll_loop(st, node, spec, seq)
         self.run_loop(st, node, spec, seq)
+
+    def unroll_loop(self, st, node, spec, seq):
+        """Execute at most k iterations concretely; complete only if the sequence provably has <= k items."""
+        n, getter = seq
+        fr = self.frame(st)
+        try:
+            for j in range(spec.unroll_max):
+                if not st.branch(n > j, "unroll@%s" % node.lineno):
+                    break
+                self.assign(st, node.target, getter(z3.IntVal(j)), node)
+                try:
+                    self.exec_block(st, node.body)
+                except PyContinue:
+                    continue
+            else:
+                st.oblige("%s:loop#%d:unroll-complete" % (fr.fi.qualname if fr.fi else "?", self.loop_ordinal(st, node)),
+                          n <= spec.unroll_max, kind="unroll", where="line %s" % node.lineno,
+                          info={"clause": "the iterated sequence has at most %d items" % spec.unroll_max})
+            self.exec_block(st, node.orelse)
+        except PyBreak:
+            pass
 
     def as_sequence(self, st, itv: SV, node):
         """Normalise an iterable into (length term, getter(i) -> SV)."""
